@@ -25,6 +25,9 @@ def generate(tier, seed):
     n = 600 if tier == "quick" else 30000
     for k in range(n):
         cases.append({"kind": "generated", "seed": "%d:g:%d" % (seed, k), "cost": 1})
+    n = 60 if tier == "quick" else 2000
+    for k in range(n):
+        cases.append({"kind": "layered", "seed": "%d:ly:%d" % (seed, k), "cost": 1})
     n = 12 if tier == "quick" else 600
     for k in range(n):
         cases.append({"kind": "lookups", "seed": "%d:l:%d" % (seed, k), "cost": 40})
@@ -238,6 +241,51 @@ def run_case(case, tier):
         import hashlib
         dg = hashlib.sha1(text.encode()).hexdigest()[:16]
         return util.finish(case, viol, counts, classes, nontrivial, sample, evals=1, digest=dg)
+    if kind == "layered":
+        # a Parameters object that has been used (look-ups made) and then receives a second file:
+        # afterwards every look-up must reflect both files, the later entries and default winning
+        import os
+        from propka.input import read_parameter_file
+        from propka.parameters import Parameters
+        t1, names1, table1, pairs1, default1, scal1 = gen_file(rng)
+        t2, names2, table2, pairs2, default2, scal2 = gen_file(rng)
+        # the second file must not re-declare matrix rows (rows are positional): keep pairs/default/scalars only
+        t2 = "\n".join(l for l in t2.split("\n") if not l.startswith("interaction_matrix")) + "\n"
+        p1, p2 = os.path.join(util.worker_tmp(), "l1.cfg"), os.path.join(util.worker_tmp(), "l2.cfg")
+        open(p1, "w").write(t1)
+        open(p2, "w").write(t2)
+        p = read_parameter_file(p1, Parameters())
+        allnames = sorted(set(names1) | set(names2)) + ["ghost"]
+        for _ in range(rng.randrange(0, 40)):
+            a, b = rng.choice(allnames), rng.choice(allnames)
+            p.sidechain_cutoffs.get_value(a, b)
+            p.interaction_matrix.get_value(a, b)
+            getattr(p, rng.choice(CUTS) + "_squared")
+        p = read_parameter_file(p2, p)
+        counts["files_read"] = 2
+        counts["layered_files"] = 1
+        merged = dict(pairs1)
+        merged.update(pairs2)
+        default = default2 if default2 is not None else (default1 if default1 is not None else (0.0, 0.0))
+        for a in allnames:
+            for b in allnames:
+                counts["lookups_checked"] = counts.get("lookups_checked", 0) + 1
+                want = merged.get((a, b), default)
+                got = p.sidechain_cutoffs.get_value(a, b)
+                if tuple(got) != tuple(want):
+                    viol.append({"cls": "layered-file-lookup-wrong", "msg": "after a second file: cutoffs(%s,%s)=%r, the two files say %r (default %r)" % (a, b, got, want, default)})
+                    break
+        for c in CUTS:
+            counts["square_checks"] = counts.get("square_checks", 0) + 1
+            plain, sq = getattr(p, c), getattr(p, c + "_squared")
+            if abs(sq - plain * plain) > 1e-9 * max(1.0, sq):
+                viol.append({"cls": "squared-inconsistent", "msg": "after a second file: %s=%r but squared=%r" % (c, plain, sq)})
+            want = scal2.get(c, scal1.get(c))
+            if want is not None and abs(plain - want) > 1e-9 * max(1.0, plain):
+                viol.append({"cls": "scalar-wrong", "msg": "after a second file: %s=%r, files imply %r" % (c, plain, want)})
+        import hashlib
+        return util.finish(case, viol, counts, classes, True, {"kind": "layered", "groups": len(allnames)}, evals=1,
+                           digest=hashlib.sha1((t1 + t2).encode()).hexdigest()[:16])
     # ---- shipped configuration
     from propka.input import read_parameter_file
     from propka.parameters import Parameters
